@@ -34,8 +34,9 @@ def mk_text(ref, n):
         s = s[:i] + " " + s[i + 1:]
     elif ref.startswith("sp") and n >= len(ref) + 4:
         s = list(s)
+        # spaces and punctuation, and '%' followed by a letter or digit (a text that is ever used as a printf format shows)
         for i in range(len(ref) + 2, n - 1, 5):
-            s[i] = " ,;!"[(i // 5) % 4]
+            s[i] = " ,;!%"[(i // 5) % 5]
         s = "".join(s)
     return s
 
